@@ -46,12 +46,12 @@ func (r *evRec) snapshot() ([]string, time.Time) {
 // ---------------------------------------------------------------- scenario
 
 type MockSpec struct {
-	Caps       string `json:"caps"`  // 4 bits: stateable, reloadable, reloadSender, shutdownSender
-	Stop       string `json:"stop"`  // "f" free, "l" lifecycle style
+	Caps       string `json:"caps"` // 4 bits: stateable, reloadable, reloadSender, shutdownSender
+	Stop       string `json:"stop"` // "f" free, "l" lifecycle style
 	StopMs     int    `json:"stopMs"`
 	RunMode    int    `json:"runMode"` // 0 until Stop/cancel, 1 exits by itself after RunMs, 2 never returns
 	RunMs      int    `json:"runMs"`
-	Outcome    string `json:"outcome"` // n, c, e
+	Outcome    string `json:"outcome"`    // n, c, e
 	ReadyPolls int    `json:"readyPolls"` // -1 never ready
 	ReloadMs   int    `json:"reloadMs"`
 }
@@ -323,15 +323,15 @@ func mkRunnable(b *base) supervisor.Runnable {
 // ---------------------------------------------------------------- running one scenario
 
 type supResult struct {
-	events   []string
-	quiet    []string
-	hung     bool
-	late     bool
-	live     int
-	users    int
-	mainRes  string
-	passes   int
-	leaked   int
+	events  []string
+	quiet   []string
+	hung    bool
+	late    bool
+	live    int
+	users   int
+	mainRes string
+	passes  int
+	leaked  int
 }
 
 func classifyRes(err error) string {
